@@ -57,6 +57,9 @@ type PeerOpts struct {
 	// scripted server: which bit it selects from the client's bitmask.
 	// 0 = honest (first of its own methods present in the mask); otherwise this value is sent as is.
 	SelectBits int
+	// scripted server: it answers the client's bitmask with ZERO bits ("none of your methods") and then carries on as
+	// if an authentication had completed (key-exchange message, AUTHORIZED post-auth ad)
+	SelectZero bool
 	// scripted client: the bitmask it sends; 0 = honest (bits of its own methods)
 	SendBits int
 	// scripted client: when the server wants authentication it answers with a zero bitmask ("no methods left")
@@ -308,6 +311,14 @@ func ScriptedServer(conn *BufConn, o PeerOpts, limit time.Duration) (log *PeerLo
 			if mask == 0 {
 				return fail(fmt.Errorf("peer: client gave up"))
 			}
+			if o.SelectZero {
+				log.BitmaskSent = 0
+				if err := sendInts(ctx, s, 0); err != nil {
+					return fail(err)
+				}
+				log.step("selected 0 and carries on")
+				break
+			}
 			sel := o.SelectBits
 			if sel == 0 {
 				for _, b := range []int{BitClaimToBe, BitFS, BitToken} {
@@ -457,7 +468,7 @@ func ScriptedServer(conn *BufConn, o PeerOpts, limit time.Duration) (log *PeerLo
 				continue
 			}
 		}
-		if log.AuthCompleted == "" {
+		if log.AuthCompleted == "" && !o.SelectZero {
 			return fail(fmt.Errorf("peer: no authentication completed"))
 		}
 		if err := sendInts(ctx, s, 0); err != nil { // key exchange message: no key
